@@ -9,7 +9,7 @@ here = os.path.dirname(os.path.dirname(os.path.abspath(__file__)))
 sys.path.insert(0, here)
 
 NOTES = {
-    "C01": ("narrow", "declined: numeric range of every formula (Cemgil, P-score, continuity, information gain, ARI/AMI <= 1, NCE, melody accuracies, overlap ratio, pattern and hierarchy scores) - value-level, needs an execution-based oracle"),
+    "C01": ("narrow-medium", "declined: numeric range of the closed-form formulas (P-score, continuity, information gain, ARI/AMI <= 1, NCE, overlap ratio, hierarchy scores) - value-level, needs an execution-based oracle; five genuine violations of the decided clauses (Cemgil and pattern standard precision can exceed 1; segment.pairwise / rand_index return NaN on pair-less inputs) are listed in known_findings.json and reported as KNOWN-FINDING"),
     "C02": ("narrow", "declined: that each formula attains its optimum when both sides coincide; that the matcher is maximum; non-degeneracy side conditions"),
     "C03": ("broad", "declined: numerical equality of each entry with the direct call (follows from the decided clauses plus purity, not re-argued)"),
     "C04": ("narrow", "declined: agreement of Cemgil/Goto/P-score/continuity/information gain, melody measures, multipitch counting, alignment statistics and pattern scores with their published formulas to 1e-9"),
